@@ -1191,6 +1191,24 @@ func (w *World) key() [2]uint64 {
 		put(n.fpCache)
 		put(n.appKey())
 	}
+	if w.sc.Twin && w.sc.E2 != nil {
+		// the twin oracles compare histories: which payloads of later heights the node has been handed so far is part
+		// of the state (a node that wrongly forgets one would otherwise fall back into an already known state and the
+		// history would never be extended to the Reset that exposes it)
+		if x := w.e2X(); x.d != nil && !x.crashed {
+			var hs []uint64
+			for h, p := range w.got[x.id] {
+				if p.height > x.d.BlockIndex {
+					hs = append(hs, uint64(h))
+				}
+			}
+			slices.Sort(hs)
+			put(uint64(len(hs)))
+			for _, h := range hs {
+				put(h)
+			}
+		}
+	}
 	// network: in k-bounded mode the order (rank) matters for the default schedule
 	if w.sc.Mode == "kbound" {
 		put(uint64(len(w.net)))
